@@ -17,6 +17,8 @@ for key in sorted(det):
             verdict = "caught"
         elif r["exit"] == 2 and verdict != "caught":
             verdict = "inconclusive"
+    if verdict != "caught" and meta.get("superseded"):
+        verdict = "neutralised"
     meta["detection"] = {"checks": det[key], "verdict": verdict}
     if meta.get("id"):
         json.dump(meta, open(d + "/meta.json", "w"), indent=1)
@@ -29,9 +31,12 @@ for key in sorted(det):
 with open("/verif/seeded/MATRIX.md", "w") as f:
     f.write("# Seeded changes x checks (quick tier, applied in a scratch worktree via VF_REPO)\n\n")
     c = sum(1 for r in rows if r[3] == "caught")
-    f.write("%d changes; %d caught (VIOLATION), %d inconclusive, %d missed.\n\n" % (
-        len(rows), c, sum(1 for r in rows if r[3] == "inconclusive"),
-        sum(1 for r in rows if r[3] == "missed")))
+    f.write("%d changes; %d caught (VIOLATION), %d inconclusive, %d neutralised by a later "
+            "fix in /repo, %d missed (all outside the statement or refusal-type, see DESIGN.md "
+            "section 6).\n\n" % (
+                len(rows), c, sum(1 for r in rows if r[3] == "inconclusive"),
+                sum(1 for r in rows if r[3] == "neutralised"),
+                sum(1 for r in rows if r[3] == "missed")))
     f.write("| change | needs, to manifest | checks run -> outcome | verdict | first witness |\n|---|---|---|---|---|\n")
     for r in rows:
         f.write("| %s | %s | %s | %s | %s |\n" % r)
